@@ -93,6 +93,29 @@ HANDOVER = ["tuple", "list", "f64", "row", "strided", "f32"]
 #   requery   volume asked, arrays overwritten, volume asked again (same composite, and the same solids combined anew)
 THEN = ["none", "buffer", "overwrite", "requery"]
 COMPOSITE = ("frustum", "lens", "union2", "concentric", "sfunion")       # kinds whose closed form reads a centre
+# "all orientations in space": a random rotation never produces the orientations that traced data is full of — an axis EXACTLY along a
+# direction of the coordinate lattice (reconstructions on a voxel grid: consecutive nodes are voxel neighbours). Such unit vectors have
+# zero, equal or opposite components. The 26 directions to a neighbouring voxel are enumerated (6 face, 12 edge, 8 corner neighbours),
+# further small-integer directions are drawn.
+NEIGHBOURS = [(i, j, k) for i in (-1, 0, 1) for j in (-1, 0, 1) for k in (-1, 0, 1) if (i, j, k) != (0, 0, 0)]
+ORIENT = {1: "face", 2: "edge", 3: "corner"}
+# where the first end sits: at the origin, on the lattice diagonal, anywhere on the lattice
+BASES = ["origin", "diagonal", "lattice"]
+
+
+def _lens_class(a):
+    r1, r2, d = a
+    if d == 0:
+        return "concentric"
+    if d > r1 + r2:
+        return "disjoint"
+    if d == r1 + r2:
+        return "tangent-out"
+    if d == abs(r1 - r2):
+        return "tangent-in"
+    if d < abs(r1 - r2):
+        return "nested"
+    return "equal-radii" if r1 == r2 else "proper"
 
 
 def _carrier(how, rng):
@@ -127,11 +150,14 @@ class Closed(Suite):
             # "for every size": the same configuration at several length scales (exact powers of two / ten on dyadic inputs)
             sc = rng.choice([1.0, 1.0, 1.0, 1e-3, 1 / 64, 128.0, 1e-2])
             fam = extra.get("family")
+            for key in ("step", "base"):                 # lengths of the lattice placement scale with the configuration
+                if extra.get(key) is not None:
+                    extra[key] = [float(x) * sc for x in extra[key]] if isinstance(extra[key], list) else float(extra[key]) * sc
             out.append({"class": f"{kind}/{cls}" + ("" if sc == 1.0 else "/scaled") + (f"/{fam}" if fam else ""), "kind": kind,
                         "a": [float(x) * sc for x in a], "seed": rng.randrange(10**6), "flip": rng.random() < 0.5, "scale": sc, **extra})
 
-        def pick(kind):
-            """one configuration of the kind, over the same classes as the main loop"""
+        def pick(kind, taper=None):
+            """one configuration of the kind, over the same classes as the main loop (taper: "in" / "out" = far end narrower / not narrower)"""
             if kind == "frustum":
                 return [g(), g(), g()], "-"
             if kind in ("lens", "union2"):
@@ -145,10 +171,13 @@ class Closed(Suite):
             r2 = r1 * rng.uniform(0.05, 0.95)
             r2s = r1 * rng.uniform(0.05, 0.6)
             hs = math.sqrt(max(r1 * r1 - r2s * r2s, 0)) * rng.uniform(0.1, 0.9)
-            return rng.choice([
+            opts = [
                 ([r1, r1 + g(), r1 + g()], "wide-high"), ([r1, r1 + g(), r1 * rng.uniform(0.05, 0.99)], "wide-low"), ([r1, r1, g()], "cylinder"),
                 ([r1, r2, r1 + g()], "narrow-high"), ([r1, r2, r1 * rng.uniform(0.3, 0.99)], "narrow-low"), ([r1, r2s, hs], "inside"),
-                ([r1, r2, r1], "h-eq-r1")])
+                ([r1, r2, r1], "h-eq-r1")]
+            if taper is not None:
+                opts = [o for o in opts if (o[0][1] < o[0][0]) == (taper == "in")]
+            return rng.choice(opts)
 
         for _ in range(n):
             add("sphere", [g()], "-")
@@ -192,6 +221,36 @@ class Closed(Suite):
             kind = COMPOSITE[i % len(COMPOSITE)]
             a, cls = pick(kind)
             add(kind, a, cls, family="handover", hand=rng.choice(["f64", "row", "strided"]), then=rng.choice(["buffer", "overwrite"]))
+        # --- orientation in space: the axis (frustum axis / line of centres) exactly along a lattice direction
+        def lattice(kind, u, orient, taper=None):
+            a, cls = pick(kind, taper)
+            L = math.sqrt(sum(x * x for x in u))
+            base = {"origin": [0, 0, 0], "diagonal": [rng.randint(-20, 20)] * 3, "lattice": [rng.randint(-20, 20) for _ in range(3)]}[rng.choice(BASES)]
+            if rng.random() < 0.5:
+                # both ends on lattice points (spacing 1/16): the length becomes a multiple of |u|, the class is the one that results
+                m = round(a[2] / L * 16) / 16
+                if m == 0 and a[2] > 0:
+                    m = 1 / 16
+                a = [a[0], a[1], m * L]
+                cls = "-" if kind == "frustum" else _lens_class(a) if kind in ("lens", "union2") else _classify(a)
+                ends = "on-lattice"
+            else:
+                m, ends = a[2] / L, "free-length"          # first end on the lattice, the configuration's own length along u
+            add(kind, a, cls, family=f"lattice-{orient}", axis=list(u), step=m, base=base, ends=ends)
+
+        # guaranteed share: every voxel-neighbour direction x every kind, the sphere / frustum kinds in both taper directions
+        for u in NEIGHBOURS:
+            orient = ORIENT[sum(abs(x) for x in u)]
+            for kind in COMPOSITE:
+                for taper in (("in", "out") if kind in ("concentric", "sfunion") else (None,)):
+                    lattice(kind, u, orient, taper)
+        for _ in range(n):
+            for kind in COMPOSITE:
+                while True:
+                    u = tuple(rng.randint(-4, 4) for _ in range(3))
+                    if sum(abs(x) for x in u) > 0:
+                        break
+                lattice(kind, u, "general")
         return out
 
     def run(self, case):
@@ -208,6 +267,10 @@ class Closed(Suite):
             u = np.array([rng.gauss(0, 1) for _ in range(3)])
             off = u / np.linalg.norm(u) * case["far"] * size
         P = lambda z: (R @ np.array([0.0, 0.0, z]) + off)
+        if case.get("axis"):
+            # z = 0 is the first end (at `base`), z = a[2] the other one: base + step * axis, nothing rotated, nothing normalised
+            ax, base, step, full = np.array(case["axis"], dtype=float), np.array(case["base"], dtype=float), case["step"], a[2]
+            P = lambda z: base + ((z / full if full else 0.0) * step) * ax
 
         # how the centres reach the constructors; `given` = the values the constructor received, by axial position
         how, then = case.get("hand"), case.get("then", "none")
@@ -279,7 +342,7 @@ class Closed(Suite):
         return res.get("a_real", case["a"]) if isinstance(res, dict) else case["a"]
 
     def lines(self, case, res):
-        if "exc" in res:
+        if not isinstance(res, dict) or "exc" in res or not isinstance(res.get("v"), float):
             return []
         kind, a = case["kind"], self._a(case, res)
         exact = kind in ("sphere", "cap", "frustum", "lens", "union2")
@@ -290,6 +353,8 @@ class Closed(Suite):
 
     def oracle(self, case, res):
         kind, a = case["kind"], self._a(case, res)
+        if not isinstance(res, dict) or "v" not in res and "exc" not in res:
+            return [(f"{kind}-malformed", f"{kind}{a}: no volume in the answer {str(res)[:200]}")]
         if "exc" in res:
             return [(f"{kind}-raises", f"{kind}{a} raised {res['exc']}: {res.get('msg')}")]
         tv = true_volume(kind, a)
@@ -304,9 +369,12 @@ class Closed(Suite):
             where = f" [solids placed {case['far']:g} x their size away from the origin]"
         elif fam == "handover":
             where = f" [centres handed over as {case['hand']}; caller's own arrays afterwards: {case['then']}]"
+        elif case.get("axis"):
+            where = f" [axis exactly along {tuple(case['axis'])}, first end at {tuple(case['base'])}, other end {case['step']!r} x axis further ({case['ends']})]"
         bad = []
         for field, tag in (("v_first", "/first-query"), ("v", ""), ("v_anew", "/combined-anew")):
-            if field in res and abs(res[field] - tv) > tol:
+            # a volume that is not a finite number (NaN, None) is not the true volume either
+            if field in res and not (isinstance(res[field], float) and abs(res[field] - tv) <= tol):
                 bad.append((f"{kind}-volume/{cls}" + (f"/{fam}" if fam else "") + tag,
                             f"{kind}{a}: reported {res[field]!r}, true volume (quadrature of the profile) {tv!r}{where}"))
         return bad[:1]
@@ -373,7 +441,16 @@ class Session(Suite):
         out = []
         n = 12 if tier == "quick" and not widen else 72
         g = lambda lo=0.125, hi=8.0: rng.randint(int(lo * 16), int(hi * 16)) / 16
-        for i in range(n):
+        # the last n // 2 sessions are held on the coordinate lattice: hub at a lattice point, every axis (hub frustum, line of centres,
+        # partner frustum) exactly along a voxel-neighbour or small-integer direction — see NEIGHBOURS
+        def lattice_dir():
+            while True:
+                u = rng.choice(NEIGHBOURS) if rng.random() < 0.7 else tuple(rng.randint(-4, 4) for _ in range(3))
+                if any(u):
+                    return list(u)
+
+        for i in range(n + n // 2):
+            lat = i >= n
             hub = ("sphere", "sphere", "frustum")[i % 3]              # guaranteed share: every hub x every partner lifetime
             life = LIFE[(i // 3) % 3]
             sc = rng.choice([1.0, 1.0, 1.0, 1e-3, 1 / 64, 128.0, 1e-2])
@@ -402,6 +479,8 @@ class Session(Suite):
                     else:
                         a, cls = _pick_partner(rng, g, kind, r1)
                         st = {"kind": kind, "a": a, "cls": cls, "dir": rng.randrange(10**6), "flip": rng.random() < 0.5}
+                        if lat:
+                            st["axis"] = lattice_dir()
                 else:
                     kind = rng.choice(["concentric", "sfunion", "sfunion", "concentric", "sfunion", "frustum"])
                     if kind == "frustum":
@@ -419,8 +498,11 @@ class Session(Suite):
                 steps.append(st)
             for st in steps:
                 st["a"] = [float(x) * sc for x in st["a"]]
-            out.append({"class": f"session/{hub}-hub/{life}" + ("" if sc == 1.0 else "/scaled"), "hub": hub, "ha": [float(x) * sc for x in ha],
-                        "life": life, "steps": steps, "scale": sc, "seed": rng.randrange(10**6)})
+            out.append({"class": f"session/{hub}-hub/{life}" + ("" if sc == 1.0 else "/scaled") + ("/lattice" if lat else ""), "hub": hub,
+                        "ha": [float(x) * sc for x in ha], "life": life, "steps": steps, "scale": sc, "seed": rng.randrange(10**6)})
+            if lat:
+                out[-1]["axis"] = lattice_dir()
+                out[-1]["base"] = [float(x) * sc for x in rng.choice([[0, 0, 0], [rng.randint(-20, 20)] * 3, [rng.randint(-20, 20) for _ in range(3)]])]
         return out
 
     def run(self, case):
@@ -432,11 +514,16 @@ class Session(Suite):
         np.random.seed(case["seed"] % (2**31))
         R, off = _rot(rng)
         ha, life = case["ha"], case["life"]
+        up = R @ np.array([0.0, 0.0, 1.0])
+        if case.get("axis"):
+            off = np.array(case["base"], dtype=float)
+            up = np.array(case["axis"], dtype=float) / math.sqrt(sum(x * x for x in case["axis"]))
+        towards = lambda st: (np.array(st["axis"], dtype=float) / math.sqrt(sum(x * x for x in st["axis"]))) if st.get("axis") else _unit(st["dir"])
         if case["hub"] == "sphere":
             ends, rad = [off], [ha[0]]
             new_hub = lambda: VolSphere(off.copy(), ha[0])
         else:
-            ends, rad = [off, off + ha[2] * (R @ np.array([0.0, 0.0, 1.0]))], [ha[0], ha[1]]
+            ends, rad = [off, off + ha[2] * up], [ha[0], ha[1]]
             new_hub = lambda: VolFrustumCone(ends[0].copy(), rad[0], ends[1].copy(), rad[1])
 
         # everything a partner is built from is computed BEFORE the session, so that a request is nothing but
@@ -449,9 +536,9 @@ class Session(Suite):
             elif case["hub"] == "frustum":
                 recipe.append((VolSphere, (ends[st["end"]].copy(), rad[st["end"]])))
             elif kind in ("lens", "union2"):
-                recipe.append((VolSphere, (off + a[2] * _unit(st["dir"]), a[1])))
+                recipe.append((VolSphere, (off + a[2] * towards(st), a[1])))
             else:
-                far = off + a[2] * _unit(st["dir"])
+                far = off + a[2] * towards(st)
                 recipe.append((VolFrustumCone, (far, a[1], off.copy(), a[0]) if st["flip"] else (off.copy(), a[0], far, a[1])))
 
         def ask(hub, st, partner):
@@ -520,6 +607,8 @@ class Session(Suite):
                 kind, a = st["kind"], st["a"]
                 before = ", ".join(f"{s['kind']}{s['a']}" for s in case["steps"][:i]) or "nothing"
                 where = (f" [request #{i + 1} on one long-lived {case['hub']} {case['ha']} ({rnd} such {case['hub']} of the process); partners {case['life']}"
+                         + (f"; on the lattice: hub at {tuple(case['base'])}" + (f" along {tuple(case['axis'])}" if case["hub"] == "frustum" else "")
+                            + (f", partner towards {tuple(st['axis'])}" if st.get("axis") else "") if case.get("axis") else "")
                          + (f", same pair as request #{st['same'] + 1}" if "same" in st else "") + f"; asked before: {before}]")
                 if isinstance(v, dict):
                     key, msg = f"{kind}-raises/{tag}", f"{kind}{a} raised {v.get('exc')}: {v.get('msg')}{where}"
